@@ -128,6 +128,8 @@ def _canon(e):
             return ("call", "floor", (canon(args[0]),), ())
         if f in CEIL_FUNCS and len(args) == 1:
             return to_rat(e).canon()
+        if f == "bool" and len(args) == 1 and not kw:
+            return canon(args[0])  # truth value of x (values are compared as truth values where they are used as such)
         if f in SQRT_FUNCS and len(args) == 1:
             return ("call", "sqrt", (canon(args[0]),), ())
         return ("call", f, tuple(canon(a) for a in args), tuple(sorted((k, canon(v)) for k, v in kw)))
@@ -178,6 +180,14 @@ def _canon(e):
         return ("ite", c, a, b)
     if t == "isnan_ne":
         return ("isnan", canon(e[1]))
+    if t == "isnone" and len(e) == 2 and isinstance(e[1], tuple) and e[1]:
+        # re-simplify after a restriction resolved the operand
+        x = e[1]
+        if _never_none(x):
+            return ("bool", False)
+        if x[0] == "none":
+            return ("bool", True)
+        return ("isnone", canon(x))
     # generic structural recursion
     out = [t]
     for x in e[1:]:
@@ -230,8 +240,8 @@ def _canon_cmp(op, a, b):
             res = ("bool", False)
         elif a[0] == "none" or b[0] == "none":
             other_raw = b if a[0] == "none" else a
-            if other_raw[0] == "mcall" and other_raw[2] in ("get_loc", "copy", "dropna", "keys", "items", "values") or other_raw[0] in ("+", "-", "*", "/", "neg", "comp", "new"):
-                res = ("bool", False)  # these never yield None
+            if _never_none(other_raw):
+                res = ("bool", False)
             else:
                 res = ("isnone", cb if a[0] == "none" else ca)
         else:
@@ -256,6 +266,15 @@ def _canon_cmp(op, a, b):
         return ("not", ("zero", _abs_norm(to_rat(b[2][0]))))
     d = to_rat(a).add(to_rat(b), -1)
     return ("cmp", op, d.canon())
+
+
+def _never_none(x):
+    """values that cannot be None whatever the inputs are"""
+    if x[0] == "mcall" and len(x) > 2 and x[2] in ("get_loc", "copy", "dropna", "keys", "items", "values"):
+        return True
+    if x[0] == "rat":
+        return True
+    return x[0] in ("+", "-", "*", "/", "neg", "comp", "new", "num", "str", "bool", "tuple", "list", "dict")
 
 
 def _nonarith(e):
@@ -336,6 +355,22 @@ def saturate(guard):
                     g.add((("cmp", "<=", a[2]), True))
             else:
                 g.add((("cmp", "<=" if a[1] == "<" else "<", nd), True))
+    # strict orderings exclude equality; a length is never negative
+    for a, pol in list(g):
+        if isinstance(a, tuple) and a and a[0] == "cmp" and len(a) == 3 and a[1] in ("<", "<="):
+            try:
+                r = to_rat(a[2])
+            except Exception:
+                continue
+            if a[1] == "<" and pol and r.const_value() is None:
+                g.add((("zero", _abs_norm(r)), False))
+                g.add((("cmp", "==", _abs_norm(r)), False))
+            sign = _len_sign(r)
+            if sign is not None and pol:
+                if a[1] == "<" and sign > 0:
+                    g.add((("bool", False), True))  # len(..) < 0
+                elif a[1] == "<=" and sign > 0:
+                    g.add((("zero", _abs_norm(r)), True))  # len(..) <= 0  =>  len(..) == 0
     changed = True
     n = 0
     while changed and n < 20:
@@ -368,12 +403,35 @@ def saturate(guard):
                 open_.append(xl)
             if sat:
                 continue
+            if not open_:
+                # every alternative is refuted: the conjunction is inconsistent
+                if ((("bool", False), True)) not in g:
+                    g.add((("bool", False), True))
+                    changed = True
+                continue
             if len(open_) == 1:
                 for l in open_[0]:
                     if l not in g:
                         g.add(l)
                         changed = True
     return g
+
+
+def _len_sign(r):
+    """+1 / -1 when r is k * len(...) with k > 0 / k < 0 (a single monomial, no constant, constant denominator)."""
+    try:
+        if len(r.num) != 1 or list(r.den.keys()) != [()]:
+            return None
+        (m, k), = r.num.items()
+        if len(m) != 1 or m[0][1] != 1:
+            return None
+        at = m[0][0]
+        if isinstance(at, tuple) and at and at[0] == "call" and at[1] == "len":
+            k = k / r.den[()]
+            return 1 if k > 0 else -1
+    except Exception:
+        return None
+    return None
 
 
 def lit_holds(guard, atom, pol=True):
